@@ -56,6 +56,12 @@ func checkC18(c *Ctx) {
 	c.Rule("C18-R16", "SetSize produces a resize event with the new size, also when one dimension stays: a way through the simulation's resize that does not resize the buffer knows both dimensions unchanged")
 	c.Expect("C18-R16", 1)
 	checkResizeSkippedOnlyWhenBothEqual(c, p, "C18-R16", "simscreen")
+	c.Rule("C18-R17", "the reported cells hold what was last set there: the simulation's drawCell addresses one physical cell, by y*w+x (a write to the neighbour a wide rune covers wraps into the next row from the last column)")
+	c.Expect("C18-R17", 1)
+	checkSimDrawCellWritesOwnCell(c, p, "C18-R17")
+	c.Rule("C18-R18", "injected keys and mouse events come out exactly as injected: InjectKey and InjectMouse reach the post on every path, whatever modes are enabled")
+	c.Expect("C18-R18", 2)
+	checkInjectAlwaysPosts(c, p, "C18-R18")
 	c.Rule("C18-R8", "the simulation's ShowCursor remembers the requested position as given")
 	c.Expect("C18-R8", 1)
 	checkShowCursorStoresRequest(c, p, "C18-R8", "simscreen")
